@@ -90,7 +90,7 @@ def reviewedLitKinds : List String := [
   "sync:sync.Map.Range", "sync:event.LocalECList.Range",
   "arg:sche.NewFuncSelector",               -- run by FuncSelector.DoTask
   "arg:sche.Sche.Post",                     -- run by Sche.doTask
-  "arg:timer.Mgr.AddTimer", "arg:timer.Mgr.After",   -- run by timer.Mgr.do
+  "arg:timer.NewTimerObj", "arg:timer.Mgr.AddTimer", "arg:timer.Mgr.After",   -- stored in Obj.CB, run by timer.Mgr.do
   "arg:apimapper/apientry.CallWithSerialize",        -- completion callback handed to the handler
   "arg:actor.PropsFromProducer"]            -- actor construction
 
@@ -98,6 +98,7 @@ def reviewedLitKinds : List String := [
 def dispatchRules : List (String × String) := [
   ("field sche.FuncSelector.fun", "arg:sche.NewFuncSelector"),
   ("field sche.RunTask.cb", "arg:sche.Sche.Post"),
+  ("field timer.Obj.CB", "arg:timer.NewTimerObj"),
   ("field timer.Obj.CB", "arg:timer.Mgr.AddTimer"),
   ("field timer.Obj.CB", "arg:timer.Mgr.After")]
 
